@@ -254,6 +254,18 @@ def gen_cases(seed, tier, shard, nshards):
                 p = partition(rnd, n, style)
                 add('crc32c', 'C %d %s %s' % (al, core.hx(m), pstr(p)), ('crc', m),
                     sig('C', al, n, style, len(p)), True)
+    # records with an embedded checksum, A || crc(A) || B, fed as one running
+    # stream with a call boundary right behind the embedded CRC (the running
+    # state is then the all-zero word, which is a state like any other)
+    for _ in range(6 * scale):
+        a = rbytes(rnd, rnd.choice([0, 1, 7, 8, 9, 64, rnd.randrange(0, 300)]))
+        b = rbytes(rnd, rnd.choice([0, 1, 3, 8, 100, rnd.randrange(0, 300)]))
+        m = a + crc_expected(a) + b
+        cut = len(a) + 4
+        p = rnd.choice([[cut, len(b)], [len(a), 4, len(b)], [cut, 0, len(b)],
+                        partition(rnd, cut, 'rand') + partition(rnd, len(b), 'rand')])
+        add('crc32c', 'C %d %s %s' % (rnd.randrange(16), core.hx(m), pstr(p)), ('crc', m),
+            sig('Cz', len(a), len(b), len(p)), True)
     for _ in range(40 * scale):
         n = rnd.choice([rnd.randrange(0, 300), rnd.randrange(0, 9000)])
         al = rnd.randrange(16)
